@@ -419,6 +419,7 @@ def install_wrapper_stubs(E, ctx, R, my, opts):
                     access('%s.is_running()' % 'loop')
                     s = R.cur()
                     r = E.branch(s.running[o.t])
+                    st.setdefault('liveness_reads', []).append(('running', o.t, r))
                     return VBool(r)
                 return VStub('loop.is_running', fn)
             if name == 'is_closed':
@@ -426,6 +427,7 @@ def install_wrapper_stubs(E, ctx, R, my, opts):
                     access('loop.is_closed()')
                     s = R.cur()
                     r = E.branch(s.closed[o.t])
+                    st.setdefault('liveness_reads', []).append(('closed', o.t, r))
                     if r:
                         st.setdefault('observed_closed', []).append(o.t)
                     return VBool(r)
@@ -630,6 +632,14 @@ def install_wrapper_stubs(E, ctx, R, my, opts):
         mr = st.get('marker_read')
         s = R.cur()
         me_loop = s.lp[me]
+        # C05/C06: a caller only WAITS for a marker whose loop it has seen alive (running and not closed) in the
+        # same lock tenure; a stopped or closed computing loop must lead to a take-over, not to a wait
+        reads = st.get('liveness_reads', [])
+        seen_running = any(k == 'running' and r is True and mr is not None and z3.eq(l, mr[0]) for k, l, r in reads)
+        seen_open = any(k == 'closed' and r is False and mr is not None and z3.eq(l, mr[0]) for k, l, r in reads)
+        E.oblige('%s/wait.only_for_a_marker_whose_loop_was_observed_running_and_not_closed' % Q,
+                 z3.BoolVal(seen_running and seen_open), props={'C05', 'C06'},
+                 detail='reads in this iteration: %r' % [(k, r) for k, l, r in reads])
         if isinstance(inner, Obj) and inner.cls == 'Awaitable' and inner.fields['kind'] == 'event_wait':
             # awaited directly: only legal on the marker's own loop
             E.oblige('%s/wait.direct_wait_only_on_the_markers_loop' % Q,
@@ -831,6 +841,7 @@ def hooks_for_loop(E, R, my, opts, me):
                 fr.env.pop(n, None)
             opts['suspended'] = False
             opts['observed_closed'] = []
+            opts['liveness_reads'] = []
             opts.pop('marker_read', None)
 
         def step():
